@@ -1,5 +1,5 @@
 """Shared tables and rules for the four trackers (C01, C03, C04, C06, C12)."""
-from lib import (Cond, ExprBuilder, all_closures, as_cmp, closure_args_of_call, count_on_paths, eval_bool_paths,
+from lib import (deep_arg, deep_calls, closure_of_adaptor, Cond, ExprBuilder, all_closures, as_cmp, closure_args_of_call, count_on_paths, eval_bool_paths,
                  every_path_passes, orient, path_conditions, reachable_bodies, result_assignments, upvar_expr)
 from linear import destroyed
 from mir import norm
@@ -43,6 +43,7 @@ ATTRS = {
     'visual': 'trackers::visual_sort::track_attributes::VisualAttributes',
 }
 TA = 'track::TrackAttributes'
+UPDATE_HISTORY = {k: v + '::update_history' for k, v in ATTRS.items()}
 
 
 def ta_method(kind, name):
@@ -249,9 +250,33 @@ def rule_epoch_arithmetic(ctx, R):
         eb = ExprBuilder(b)
         da = _deref_assignments(b)
         incs = []
+        entry_form = None
         for i, si, tgt, val, ln in da:
             if tgt.has_call('get_mut') and val.kind == 'bin' and val.name == 'Add':
                 incs.append((tgt, val, ln))
+            elif tgt.has_call('or_insert') and tgt.has_call('entry') and val.kind == 'bin' and val.name == 'Add':
+                entry_form = (tgt, val, ln)
+        if entry_form is not None and not incs:
+            # `*map.entry(scene).or_insert(0) += inc` covers both the existing and the unseen scene
+            tgt, val, ln = entry_form
+            ent = tgt.calls('entry')[0]
+            oi = tgt.calls('or_insert')[0]
+            key = ent.args[1].strip()
+            add = val.args[1]
+            keyed = key.kind == 'place' and key.root == ('param', 2)
+            if inc == 'const1':
+                amt = add.kind == 'const' and add.const.get('v') == '1'
+            else:
+                amt = add.strip().kind == 'place' and add.strip().root == ('param', 3)
+            zero = oi.args[1].kind == 'const' and oi.args[1].const.get('v') == '0'
+            r = count_on_paths(b, 0, b.returns(), [entry_form and [i for i, si, t_, v_, l_ in da if t_ is tgt][0]])
+            n += 2
+            ctx.check(keyed and amt, R, b, name + ':existing-scene-advances', 'entry(%r).or_insert(0) += %r' % (key, add),
+                      '%s does not advance the epoch of the scene parameter by %s (entry form: key %r, amount %r)' % (
+                          name, '1' if inc == 'const1' else 'n', key, add))
+            ctx.check(keyed and amt and zero, R, b, name + ':unseen-scene-starts-at-increment', 'default 0',
+                      '%s does not start an unseen scene at 0 + increment' % name)
+            continue
         n += 1
         okinc = len(incs) == 1
         detail = ''
@@ -417,16 +442,15 @@ def rule_accessor_wiring(ctx, R):
         b = ctx.anchor(R, API + '::' + meth)
         if b is None:
             continue
-        eb = ExprBuilder(b)
         for callee, accessors in uses.items():
-            cs = b.find_calls('track::store::TrackStore::' + callee)
+            cs = deep_calls(ctx.F, b, 'track::store::TrackStore::' + callee)
             n += 1
             if not cs:
                 ctx.fail(R, b, '%s:%s' % (meth, callee), 'ANCHOR-MISSING: %s no longer calls TrackStore::%s' % (
                     meth, callee))
                 continue
-            for c in cs:
-                recv = eb.arg(c, 0)
+            for owner, c in cs:
+                recv = deep_arg(ctx.F, owner, c, 0)
                 got = [x.name.rsplit('::', 1)[-1] for x in recv.walk() if x.kind == 'call' and x.name.startswith(API)]
                 ctx.check(bool(got) and all(g in accessors for g in got), R, b, '%s:%s-on' % (meth, callee),
                           '%s().%s' % (got, callee),
@@ -515,8 +539,28 @@ def rule_observers(ctx, R):
                 detail = 'filter keeps: %s' % [([str(k) for k in conds], v) for conds, v in paths]
                 ok = ok or good
         if not ok:
-            # alternative: the Lookup impl itself consults expiry
-            lk = [x for x in reachable_bodies(ctx.F, b, depth=2) if x.endswith('::lookup')]
+            for c in b.find_calls('std::iter::Iterator::filter_map', 'std::iter::Iterator::flat_map'):
+                recv = eb.arg(c, 0)
+                if not recv.has_call('lookup'):
+                    continue
+                for cb in closure_args_of_call(ctx.F, b, c):
+                    ctx.read(cb)
+                    good = True
+                    seen_none = False
+                    for d in cb.defs().get(0, []):
+                        if d[0] != 'assign' or d[3]['rv']['k'] != 'agg':
+                            continue
+                        conds = path_conditions(cb, d[1])
+                        wasted = any(k.kind == 'discr' and k.variants == {'Wasted'} for k in conds) and any(
+                            k.kind == 'discr' and k.variants == {'Ok'} for k in conds)
+                        v = d[3]['rv'].get('v')
+                        if v == 'None':
+                            seen_none = True
+                            good = good and wasted
+                        elif v == 'Some':
+                            good = good and not wasted
+                    detail = 'filter_map drops exactly Ok(Wasted): %s' % (good and seen_none)
+                    ok = ok or (good and seen_none)
         ctx.check(ok, R, b, tname + ':idle-excludes-expired', detail[:200],
                   'idle_tracks_with_scene lists every track matched by the idle lookup without excluding those whose '
                   'status is Ok(Wasted) (%s): an expired track that was not collected yet is reported as idle, so the '
@@ -558,15 +602,25 @@ def rule_conservation(ctx, R):
                       meth, ['bb%d %s %s at %s' % (x[0], x[3], x[2][:40], x[4]) for x in dd]))
     aw = ctx.anchor(R, API + '::auto_waste')
     if aw is not None:
-        eb = ExprBuilder(aw)
-        adds = aw.find_calls('track::store::TrackStore::add_track')
+        adds = deep_calls(ctx.F, aw, 'track::store::TrackStore::add_track')
         n += 1
         ok = len(adds) == 1
         if ok:
-            v = eb.arg(adds[0], 1)
-            ok = v.has_call('next') and v.has_call('get_main_store_wasted')
-            its = [h for h, blks in aw.loops().items() if adds[0].bb in blks]
-            ok = ok and len(its) == 1
+            owner, c = adds[0]
+            v = deep_arg(ctx.F, owner, c, 1)
+            if owner is aw:
+                ok = v.has_call('next') and v.has_call('get_main_store_wasted')
+                its = [h for h, blks in aw.loops().items() if c.bb in blks]
+                ok = ok and len(its) == 1
+            else:
+                # closure form: tracks.into_iter().for_each(|t| add_track(t)) - the closure's parameter is the track
+                # and the closure is driven by an adaptor over the fetched vector
+                pb, ac = closure_of_adaptor(ctx.F, aw, owner)
+                ok = v.strip().kind == 'place' and v.strip().root == ('param', 2) and ac is not None and \
+                    ac.name in ('for_each', 'map', 'try_for_each') and \
+                    ExprBuilder(pb).arg(ac, 0).has_call('get_main_store_wasted')
+                r = count_on_paths(owner, 0, owner.returns(), [c.bb])
+                ok = ok and r == (1, 1)
         ctx.check(ok, R, aw, 'auto_waste:each-expired-track-moved', 'every fetched track is added to the wasted store',
                   'auto_waste does not add every track returned by get_main_store_wasted to the wasted store')
     for meth, acc in (('wasted', 'get_wasted_store_mut'), ('get_main_store_wasted', 'get_main_store_mut')):
@@ -620,7 +674,7 @@ def rule_length_step(ctx, R):
                          ('visual', '<trackers::visual_sort::metric::VisualMetric as track::ObservationMetric>::optimize')):
         b = ctx.anchor(R, metric)
         if b is not None:
-            uh = b.find_calls(ATTRS[kind] + '::update_history')
+            uh = b.find_calls(UPDATE_HISTORY[kind])
             r = count_on_paths(b, 0, [x for x in b.returns()], [c.bb for c in uh])
             # error exits (`?`) may skip it; consider Ok exits only
             from restore import exits
@@ -631,7 +685,7 @@ def rule_length_step(ctx, R):
                       'exactly one update_history on every successful path',
                       'optimize() calls update_history between %s and %s times per added observation: track length '
                       'and histories no longer advance by one per detection' % (r[0] if r else '?', r[1] if r else '?'))
-        ub = ctx.anchor(R, ATTRS[kind] + '::update_history')
+        ub = ctx.anchor(R, UPDATE_HISTORY[kind])
         if ub is None:
             continue
         eb = ExprBuilder(ub)
